@@ -350,7 +350,7 @@ int invoke(Invocation& iv, int& expectedNew)
 // which calculators make sense for a world
 bool admissible(const std::string& k, const WorldSpec& w)
 {
-  if (k == "simfft") return w.outKind == 0 && w.nvar == 1 && w.nfex == 0 && w.ndim >= 2; // 1-D: known finding (never returns), kept as a canary plan
+  if (k == "simfft") return w.outKind == 0 && w.nvar == 1 && w.nfex == 0 && w.ndim == 2; // 3-D FFT grids cost tens of seconds under ASan; dimension mismatch never returns (canary)
   if (k == "statsOnGrid") return w.outKind == 0;
   if (k == "krigcell") return false; // needs block extension columns: not built by this generator
   if (k == "kribayes") return w.nfex == 0 && w.nvar == 1;
@@ -382,6 +382,7 @@ struct ExecOut
 void execCall(const Plan& p, Ctx& c, bool traceMode, const std::string& expectDigest)
 {
   childInit();
+  g_cpuBudgetS = 12;
   const Op* wop = nullptr;
   const Op* cop = nullptr;
   for (auto& o : p.ops)
